@@ -516,6 +516,13 @@ def check_C17(tier, seed):
                 l = 'LOOKUP %d %d' % (md.idx, fid)
                 lines.extend([l] * rnd.choice([1, 1, 8]))
                 st.add('LOOKUP', l)
+            # enum lookups by name (canonical names, aliases, misses) and by number on a shared enum descriptor with aliases
+            for _ in range(per_env):
+                l = rnd.choice(['ENUMNAME ' + rnd.choice(['VALUE_A', 'VALUE_AA', 'VALUE_B', 'VALUE_C', 'VALUE_D', 'VALUE_E', 'VALUE_F', 'VALUE_FF',
+                                                          'VALUE', 'VALUE_G', 'VALUE_AB', 'value_a']),
+                                'ENUMNUM %d' % rnd.choice([0, 42, 666, 1000, 1, 41, 43, 999, 1001, 4294967295])])
+                lines.extend([l] * rnd.choice([1, 4, 8]))
+                st.add('ENUMLOOKUP', l)
             rnd.shuffle(lines)
             text = env.text() + '\n'.join(lines) + '\n'
             rc0, seq_out, seq_err = run_driver(ctx.impl, text, 'c17seq')
@@ -525,6 +532,9 @@ def check_C17(tier, seed):
             # the driver compares every shared object (descriptors, default values, the default allocator) with a snapshot
             # taken before the first call: the library must not have written to any of them
             shared = [w for w, o in (('sequential run', seq_out), ('threaded run', mt_out)) if 'SHARED-STATE-CHANGED' in o]
+            outside = [w for w, o in (('sequential run', seq_out), ('threaded run', mt_out)) if any(x.startswith('E OUTSIDE') for x in o)]
+            if outside:
+                bad = bad + ['an enum lookup returned a pointer that is not an entry of the shared descriptor (E OUTSIDE) in the ' + ' and the '.join(outside)]
             if shared:
                 bad = bad + ['SHARED-STATE-CHANGED (a descriptor, a default value or the default allocator was written to) in the ' + ' and the '.join(shared)]
             tally_shared[0] += 1
@@ -635,6 +645,11 @@ def check_C01(tier, seed):
                                 % (first_diff(got, want), env.text(), l, ul2[k], got[:3000], want[:3000]))
                 run.violation(rp, False)
 
+    # the hypothesis env_ok of the round-trip theorem is "what the generator guarantees about descriptors": the message and
+    # field descriptors the real generator emits (ids, labels, types, quantifiers, flags, ranges) are compared with the
+    # generator model and with the schema (initial values and defaults are C12's)
+    import gencheck
+    run.cov['generator_tie'] = gencheck.generator_part(run, 'C01', tier, seed, n_quick=25, n_thorough=300)
     run.cov['hand_built_messages'] = wfd
     run.cov['domain'] = {'messages': in_dom[0], 'wf_msg': in_dom[1], 'canon_msg': in_dom[2], 'env_ok': in_dom[3],
                          'note': 'generated messages that satisfy the hypotheses of the C01 theorem, evaluated with the extracted predicates'}
@@ -716,7 +731,7 @@ def check_C11(tier, seed):
     gate, obl = gate_and_ties(run, ctx, 'C11', seed, tier)
     rnd = random.Random(seed * 1000003 + 11)
     st = Stats()
-    envs = envs_for(rnd, tier, 14, 120, big_every=4)
+    envs = envs_for(rnd, tier, 14, 120, big_every=4, oneof_defaults=True)
     # always: schemas whose first message has more than 128 fields (heap-allocated required-fields bitmap)
     envs = [casegen.gen_env(rnd, nmsgs=rnd.randint(1, 3), big=True, wide=True) for _ in range(2 if tier == 'quick' else 8)] + envs
     per_env = 40 if tier == 'quick' else 120
@@ -737,6 +752,12 @@ def check_C11(tier, seed):
             lines.append(l); expect.append(must_fail)
             st.add('UNPACK:required-dropped' if must_fail else 'UNPACK:complete', l)
             tally['dropped_expected_fail' if must_fail else 'complete_expected_ok'] += 1
+        # complete messages whose embedded message arrives in two occurrences (each complete): must be accepted
+        for d, bs, kind in casegen.merge_corner_inputs(rnd, env, 9 if tier == 'quick' else 24):
+            l = 'UNPACK %d %s' % (d, casegen.hexs(bs))
+            lines.append(l); expect.append(False)
+            st.add('UNPACK:complete-two-occurrences-' + kind, l)
+            tally['complete_expected_ok'] += 1
         # systematic: every required field without default (first, last, beyond index 127 first; at most 24 per schema) left out of
         # a message of its own type and of a message embedding it, plainly and behind a leading unknown field
         order = sorted(reqs, key=lambda r: (0 if [f.id for f in env.msgs[r[0]].fields].index(r[1]) in (0, len(env.msgs[r[0]].fields) - 1)
@@ -1039,6 +1060,11 @@ def check_C04(tier, seed, pid='C04'):
             l = 'UNPACK %d %s' % (d, casegen.hexs(bs))
             lines.append(l); origs.append('U ' + casegen.msg_text(m)); hasunk.append(o.unknown)
             st.add('UNPACK:' + ('split+stale' if sp else 'reencoded'), l)
+        # a singular embedded message in two occurrences built around merge_messages' per-member decisions
+        for d, bs, kind in casegen.merge_corner_inputs(rnd, env, 9 if tier == 'quick' else 24):
+            l = 'UNPACK %d %s' % (d, casegen.hexs(bs))
+            lines.append(l); origs.append(''); hasunk.append(True)
+            st.add('UNPACK:two-occurrences-' + kind, l)
         c_out, m_out, bad, c_err, text = corr(run, ctx, env, lines, pid.lower())
         if bad or len(c_out) != len(lines):
             viol(run, 'disagreement', open(report_disagreement(run, env.text(), lines, c_out, m_out, bad, c_err, 'Impl <-> C correspondence (unpack) disagrees')).read())
@@ -1322,6 +1348,9 @@ def alloc_check(pid, tier, seed):
                     inputs.append((d, casegen.hexs(casegen.encode(env, m, casegen.Opts(rnd, drop=drop, shuffle=rnd.random() < 0.3)))))
         # systematically: a selected oneof member released, then the replacing member rejected (every ordered pair of members)
         for d, bs in casegen.oneof_replacement_failures(rnd, env, 12 if tier == 'quick' else 40):
+            inputs.append((d, casegen.hexs(bs)))
+        # a singular embedded message in two occurrences: carry-over, explicit empty values, replacement (merge_messages' moves and frees)
+        for d, bs, _kind in casegen.merge_corner_inputs(rnd, env, (9 if pid == 'C07' else 4) if tier == 'quick' else 24):
             inputs.append((d, casegen.hexs(bs)))
         base = ['UNPACKT %d %s -' % (d, h) for d, h in inputs]
         rc, b_out, b_err = run_driver(ctx.impl, env.text() + '\n'.join(base) + '\n', pid.lower() + 'b')
